@@ -22,6 +22,26 @@ macro_rules! gentl_api {
         }
     };
 
+    // For the error query itself: a failing `GCGetLastError` (buffer too small, NULL parameter,
+    // library not initialised) must not replace the error it was asked to report, otherwise the
+    // usual "query the size, then retry" sequence returns the query's own error.
+    (
+        no_save pub fn $name:ident($($arg:ident: $ty:ty),*$(,)?) -> GenTlResult<()> $body:tt
+    )
+    => {
+        #[no_mangle]
+        pub extern "C" fn $name($($arg: $ty),*) -> GC_ERROR {
+            #[inline(always)]
+            fn inner($($arg: $ty),*) -> GenTlResult<()> {
+                crate::ffi::assert_lib_initialized()?;
+                $body
+            }
+
+            let res = inner($($arg),*);
+            (&res).into()
+        }
+    };
+
     (
         no_assert pub fn $name:ident($($arg:ident: $ty:ty),*$(,)?) -> GenTlResult<()> $body:tt
     )
